@@ -11,6 +11,7 @@ Layers (helpers in `Proofs/C10/`):
 * `Dict.lean` : `sdGet` lookup lemmas, `QModuleSer.WellFormed`.
 -/
 import Proofs.C10.Dict
+import Proofs.C10.Model
 namespace Quanto
 open Quanto.C10
 
@@ -356,5 +357,88 @@ example : QModuleSer.load "fc." true
 example : (QModuleSer.load "fc." false
     (QModuleSer.save "fc." ⟨.float "w", some "b", "i", "o", none, none⟩)).map (·.save "fc.") ≠
     some (QModuleSer.save "fc." ⟨.float "w", some "b", "i", "o", none, none⟩) := by decide
+
+/-! ### T7 : whole model
+
+`modelSave ms` is the state_dict of a model whose quantized modules are `ms` (prefix, module), in
+`named_modules` order. Loading any module from the *combined* dict gives that module back, provided
+the prefixes are pairwise independent (no key under one prefix is a key under another): this is
+the case for sibling modules `"fc1."`, `"fc2."`, … (`C10_prefixIndep_of_length_eq` and the concrete
+examples below); it fails when a prefix is reused (`C10_counterexample_overlapping_prefixes`). -/
+
+/-- `_load_from_state_dict` reads the dict only at keys under its own prefix -/
+theorem C10_load_congr (pre : String) (b : Bool) (sd sd' : StateDict)
+    (h : ∀ x, sdGet sd (pre ++ x) = sdGet sd' (pre ++ x)) :
+    QModuleSer.load pre b sd = QModuleSer.load pre b sd' := load_congr pre b sd sd' h
+
+/-- every key written by a module under prefix `pre` starts with `pre` -/
+theorem C10_module_keys_prefixed (pre : String) (m : QModuleSer) :
+    ∀ k ∈ (m.save pre).map (·.1), ∃ x, k = pre ++ x := by
+  intro k hk
+  obtain ⟨e, he, rfl⟩ := List.mem_map.mp hk
+  exact save_keys_prefixed pre m e he
+
+/-- distinct prefixes of equal length are independent -/
+theorem C10_prefixIndep_of_length_eq (a b : String) (hl : a.length = b.length) (hne : a ≠ b) :
+    ∀ x y, a ++ x ≠ b ++ y := prefixIndep_of_length_eq a b hl hne
+
+/-- in the whole-model dict, the lookups under a module's prefix see exactly that module's entries -/
+theorem C10_model_lookup (ms : List (String × QModuleSer))
+    (hpre : ms.Pairwise fun a b => ∀ x y, a.1 ++ x ≠ b.1 ++ y)
+    (pm : String × QModuleSer) (hm : pm ∈ ms) (x : String) :
+    sdGet (modelSave ms) (pm.1 ++ x) = sdGet (pm.2.save pm.1) (pm.1 ++ x) :=
+  sdGet_modelSave ms hpre pm hm x
+
+/-- whole-model round trip: every (well-formed) module is recovered from the combined state_dict -/
+theorem C10_model_roundtrip (ms : List (String × QModuleSer))
+    (hpre : ms.Pairwise fun a b => ∀ x y, a.1 ++ x ≠ b.1 ++ y)
+    (pm : String × QModuleSer) (hm : pm ∈ ms) (wf : pm.2.WellFormed) :
+    QModuleSer.load pm.1 pm.2.bias.isSome (modelSave ms) = some pm.2 := by
+  rw [load_congr pm.1 _ (modelSave ms) (pm.2.save pm.1) (sdGet_modelSave ms hpre pm hm)]
+  exact C10_module_roundtrip pm.1 pm.2 wf
+
+/-- all modules at once -/
+theorem C10_model_roundtrip_all (ms : List (String × QModuleSer))
+    (hpre : ms.Pairwise fun a b => ∀ x y, a.1 ++ x ≠ b.1 ++ y)
+    (wf : ∀ pm ∈ ms, pm.2.WellFormed) :
+    ms.map (fun pm => QModuleSer.load pm.1 pm.2.bias.isSome (modelSave ms)) =
+      ms.map (fun pm => some pm.2) :=
+  List.map_congr_left fun pm hm => C10_model_roundtrip ms hpre pm hm (wf pm hm)
+
+/-- non-vacuity: the independence hypothesis holds for the sibling prefixes `"fc1."`, `"fc2."` -/
+theorem C10_model_example_indep : [("fc1.", sampleModule4), ("fc2.", sampleModule8)].Pairwise
+    fun a b => ∀ x y, a.1 ++ x ≠ b.1 ++ y := by
+  simp only [List.pairwise_cons, List.mem_cons, List.mem_nil_iff, or_false, forall_eq,
+    List.Pairwise.nil, and_true, false_imp_iff, implies_true]
+  exact C10_prefixIndep_of_length_eq "fc1." "fc2." (by decide) (by decide)
+
+/-- a two-layer model (int4 `fc1` with bias, int8 `fc2` without): both modules are recovered from
+the combined state_dict -/
+example : QModuleSer.load "fc1." true
+    (modelSave [("fc1.", sampleModule4), ("fc2.", sampleModule8)]) = some sampleModule4 :=
+  C10_model_roundtrip _ C10_model_example_indep ("fc1.", sampleModule4) (by simp)
+    (by constructor <;> simp [sampleModule4])
+example : QModuleSer.load "fc2." false
+    (modelSave [("fc1.", sampleModule4), ("fc2.", sampleModule8)]) = some sampleModule8 :=
+  C10_model_roundtrip _ C10_model_example_indep ("fc2.", sampleModule8) (by simp)
+    (by constructor <;> simp [sampleModule8])
+
+/-- the combined dict has the keys of both modules, `fc1.*` then `fc2.*` -/
+example : (modelSave [("fc1.", sampleModule4), ("fc2.", sampleModule8)]).map (·.1) =
+  ["fc1.weight._data._data", "fc1.weight._data.bits", "fc1.weight._data.size",
+   "fc1.weight._data.stride", "fc1.weight._scale", "fc1.weight._zeropoint", "fc1.weight.qtype",
+   "fc1.weight.axis", "fc1.weight.group_size", "fc1.weight.size", "fc1.weight.stride", "fc1.bias",
+   "fc1.input_scale", "fc1.output_scale", "fc1.weight_qtype", "fc1.activation_qtype",
+   "fc2.weight._data", "fc2.weight._scale", "fc2.weight.qtype", "fc2.weight.axis",
+   "fc2.weight.size", "fc2.weight.stride", "fc2.input_scale", "fc2.output_scale",
+   "fc2.weight_qtype", "fc2.activation_qtype"] := by decide
+
+/-- the independence hypothesis cannot be dropped: with the same prefix used twice the second
+module is not recovered (the first one's entries shadow it) -/
+theorem C10_counterexample_overlapping_prefixes :
+    QModuleSer.load "fc." false
+      (modelSave [("fc.", ⟨.float "w1", none, "i", "o", none, none⟩),
+                  ("fc.", ⟨.float "w2", none, "i", "o", none, none⟩)]) ≠
+    some ⟨.float "w2", none, "i", "o", none, none⟩ := by decide
 
 end Quanto
